@@ -61,8 +61,8 @@ def extract():
 # cases
 # ----------------------------------------------------------------------------------------------
 def gen_cases(rng, tier):
-    n_sq = 330 if tier == "quick" else 5000
-    n_gen = 90 if tier == "quick" else 1200
+    n_sq = 1200 if tier == "quick" else 12000
+    n_gen = 200 if tier == "quick" else 2000
     out = []
     g = sp.SGen(rng)
     gflat = sp.SGen(rng, p_subq=0.0, max_depth=0, p_with=0.0)
@@ -114,6 +114,10 @@ def corpus():
         {"kind": "sq", "order": None, "spec": sel(
             **{"from": [T("t")], "selects": [["t", ["arith", "mul", F("a", 0), ["arith", "div", F("b", 0), I(2), None], None]],
                                              ["t", F("a", 0)], ["t", F("b", 0)]]})},
+        # F5: ORDER BY t.b rendered as the bare name "b", which SQL binds to the output column "b" (= a*-1)
+        {"kind": "sq", "order": None, "spec": sel(
+            **{"from": [T("t")], "selects": [["t", ["arith", "mul", F("a", 0), I(-1), "b"]], ["t", F("b", 0, "n")]],
+               "orderby": [[["t", F("b", 0)], None]]})},
         # shapes that must stay right
         {"kind": "sq", "order": 1, "spec": sel(
             **{"from": [T("t")], "joins": [["left", T("u", "x"), ["on", ["t", ["basic", "eq", F("a", 0), F("a", 1), None]]]],
@@ -146,10 +150,18 @@ def corpus():
 # ----------------------------------------------------------------------------------------------
 # implementation
 # ----------------------------------------------------------------------------------------------
+_STATS = {}
+
+
+def _stat(k):
+    _STATS[k] = _STATS.get(k, 0) + 1
+
+
 def run_impl(case):
     if case["kind"] == "gen":
         return {"text": qf.render_impl(case["spec"])}
     j = orc.judge_spec(case["spec"], case.get("order"))
+    _stat("verdict=" + j["verdict"] + (":" + j["why"].split(":")[0][:40] if j["verdict"] == "not-judged" else ""))
     out = {"text": j["text"], "verdict": j["verdict"], "trace": j.get("trace")}
     for k in ("what", "why", "ref", "detail"):
         if k in j:
@@ -159,7 +171,8 @@ def run_impl(case):
     return out
 
 
-SOFT = (["C04", "groupby", "alias-of-select-item", "captured-by-source-column"], ["C04", "expression", "mul-over-div", "reassociated"])
+SOFT = (["C04", "groupby", "alias-of-select-item", "captured-by-source-column"], ["C04", "expression", "mul-over-div", "reassociated"],
+        ["C04", "orderby", "unqualified-column", "captured-by-select-alias"])
 
 
 def to_coq(case, outcome):
@@ -204,6 +217,7 @@ def histogram(cases):
             h["order=" + ("fixed" if c.get("order") is None else "shuffled")] = h.get("order=" + ("fixed" if c.get("order") is None else "shuffled"), 0) + 1
         else:
             h["cls=" + c["spec"]["cls"]] = h.get("cls=" + c["spec"]["cls"], 0) + 1
+    h.update(_STATS)
     return h
 
 
